@@ -637,17 +637,35 @@ pub(crate) fn listed(list: &[Net], a: IpAddr) -> bool {
         }
         v4 => v4,
     };
-    list.iter().any(|(n, m)| match (n, a) {
-        (IpAddr::V4(n), IpAddr::V4(x)) => {
+    list.iter().any(|(n, m)| match (canon_net((*n, *m)), a) {
+        ((IpAddr::V4(n), m), IpAddr::V4(x)) => {
+            let m = &m;
             let (n, x) = (u32::from_be_bytes(n.octets()) as u64, u32::from_be_bytes(x.octets()) as u64);
             *m == 0 || (n ^ x) >> (32 - *m as u32) == 0
         }
-        (IpAddr::V6(n), IpAddr::V6(x)) => {
+        ((IpAddr::V6(n), m), IpAddr::V6(x)) => {
             let (n, x) = (u128::from_be_bytes(n.octets()), u128::from_be_bytes(x.octets()));
-            *m == 0 || (n ^ x) >> (128 - *m as u32) == 0
+            m == 0 || (n ^ x) >> (128 - m as u32) == 0
         }
         _ => false,
     })
+}
+
+fn is_mapped(x: &Ipv6Addr) -> bool {
+    let o = x.octets();
+    o[..10].iter().all(|b| *b == 0) && o[10] == 0xff && o[11] == 0xff
+}
+
+/// A subnet written in IPv4-mapped form (`::ffff:a.b.c.d/(96+m)`) denotes the IPv4 subnet
+/// `a.b.c.d/m` (that is how the configuration reads it).
+pub(crate) fn canon_net(n: Net) -> Net {
+    match n {
+        (IpAddr::V6(x), m) if is_mapped(&x) && m >= 96 => {
+            let o = x.octets();
+            (IpAddr::V4(Ipv4Addr::new(o[12], o[13], o[14], o[15])), m - 96)
+        }
+        other => other,
+    }
 }
 
 #[derive(Clone, Copy, PartialEq, Eq, Debug, Hash)]
@@ -700,7 +718,15 @@ impl Policy {
     }
 
     pub(crate) fn server_config(&self) -> ServerConfig {
-        let subnets = |l: &[Net]| l.iter().map(|(a, m)| IpSubnet { addr: *a, mask: *m }).collect();
+        let subnets = |l: &[Net]| {
+            l.iter()
+                .map(|(a, m)| match a {
+                    // written in IPv4-mapped form: through the real text parser, as a config file would
+                    IpAddr::V6(x) if is_mapped(x) => format!("{a}/{m}").parse::<IpSubnet>().expect("mapped subnet text"),
+                    _ => IpSubnet { addr: *a, mask: *m },
+                })
+                .collect()
+        };
         let mut accepted = Vec::new();
         for (v, nv) in [(3u8, NtpVersion::V3), (4, NtpVersion::V4), (5, NtpVersion::V5)] {
             if self.accepts(v) {
@@ -751,7 +777,21 @@ impl Policy {
     /// Inverse of `trace` (list names are looked up in the thorough list set).
     pub(crate) fn parse(fields: &BTreeMap<String, String>) -> Option<Policy> {
         let ls = lists(true);
-        let find = |n: &str| ls.iter().find(|(name, _)| *name == n).cloned();
+        let find = |n: &str| -> Option<(&'static str, Vec<Net>)> {
+            if let Some(rest) = n.strip_prefix('@') {
+                // explicit list: "@net+net+..." (boundary sweep)
+                let nets: Option<Vec<Net>> = rest
+                    .split('+')
+                    .filter(|t| !t.is_empty())
+                    .map(|t| {
+                        let (a, m) = t.rsplit_once('/')?;
+                        Some((a.parse().ok()?, m.parse().ok()?))
+                    })
+                    .collect();
+                return Some((leak(n.to_string()), nets?));
+            }
+            ls.iter().find(|(name, _)| *name == n).cloned()
+        };
         let (deny_name, deny) = find(fields.get("dl")?)?;
         let (allow_name, allow) = find(fields.get("al")?)?;
         Some(Policy {
@@ -838,6 +878,280 @@ pub(crate) fn run_handle(server: &mut Server<MockClock>, addr: IpAddr, dgram: &[
             panic: Some(e),
         },
     }
+}
+
+// ---------------------------------------------------------------------------------
+// boundary-valued subnets: lists and client addresses generated around nibble-aligned
+// blocks (the IP filter is a 4-bit trie; the policy must hold end to end whatever the
+// filter does with subnets that start / end exactly at a block edge or tile a block)
+// ---------------------------------------------------------------------------------
+
+fn leak(s: String) -> &'static str {
+    Box::leak(s.into_boxed_str())
+}
+
+/// A nibble-aligned block: `val` right-aligned in `width` bits, `len` a multiple of 4.
+#[derive(Clone, Copy, Debug)]
+pub(crate) struct Block {
+    pub v6: bool,
+    pub val: u128,
+    pub len: u8,
+}
+
+impl Block {
+    fn width(&self) -> u8 {
+        if self.v6 { 128 } else { 32 }
+    }
+    fn ip(&self, v: u128) -> IpAddr {
+        if self.v6 {
+            IpAddr::V6(Ipv6Addr::from(v.to_be_bytes()))
+        } else {
+            IpAddr::V4(Ipv4Addr::from((v as u32).to_be_bytes()))
+        }
+    }
+    fn max(&self) -> u128 {
+        if self.v6 { u128::MAX } else { u32::MAX as u128 }
+    }
+    /// Sub-subnet given by `bits` (a string of '0'/'1' appended to the block prefix).
+    fn sub(&self, bits: &str) -> Option<(u128, u8)> {
+        let l = self.len as usize + bits.len();
+        if l > self.width() as usize {
+            return None;
+        }
+        let mut v = self.val;
+        for (i, c) in bits.chars().enumerate() {
+            if c == '1' {
+                v |= 1u128 << (self.width() as usize - self.len as usize - 1 - i);
+            }
+        }
+        Some((v, l as u8))
+    }
+    fn net(&self, n: (u128, u8)) -> Net {
+        (self.ip(n.0), n.1)
+    }
+    /// first and last address of a (value, length) subnet
+    fn range(&self, n: (u128, u8)) -> (u128, u128) {
+        let host = self.width() - n.1;
+        let size_m1 = if host == 0 { 0 } else if host == 128 { u128::MAX } else { (1u128 << host) - 1 };
+        (n.0, n.0 | size_m1)
+    }
+}
+
+fn parse_block(s: &str) -> Block {
+    let (a, l) = s.split_once('/').unwrap();
+    match a.parse::<IpAddr>().unwrap() {
+        IpAddr::V4(x) => Block { v6: false, val: u32::from_be_bytes(x.octets()) as u128, len: l.parse().unwrap() },
+        IpAddr::V6(x) => Block { v6: true, val: u128::from_be_bytes(x.octets()), len: l.parse().unwrap() },
+    }
+}
+
+pub(crate) fn blocks(thorough: bool) -> Vec<Block> {
+    let mut v = vec![
+        "192.168.240.0/20", // block in the middle of the address
+        "10.240.0.0/12",
+        "172.16.5.240/28", // last nibble of an IPv4 address
+        "255.255.255.240/28", // block that ends at the end of the address space
+        "2001:db8:0:f000::/52",
+        "2001:db8:5::fff0/124", // last nibble of an IPv6 address
+    ];
+    if thorough {
+        v.extend(["240.0.0.0/4", "10.1.0.0/16", "0.0.0.0/8", "fff0::/12", "2001:db8:ffff:ff00::/56", "::/4"]);
+    }
+    v.into_iter().map(parse_block).collect()
+}
+
+/// All boundary-valued lists of one block: single subnets whose bits after the block
+/// prefix are all zeros / all ones / next to those, for 1..=8 (thorough 12) extra bits;
+/// runs of adjacent subnets that do / do not reach the block end, tile the block, or
+/// leave a gap; IPv4-mapped spellings. Thorough: also every pair of singles.
+pub(crate) fn boundary_lists(b: &Block, thorough: bool) -> Vec<Vec<Net>> {
+    let mut singles: Vec<(u128, u8)> = Vec::new();
+    let max_extra = if thorough { 12 } else { 8 };
+    for s in 1..=max_extra {
+        if b.len as usize + s > b.width() as usize {
+            break;
+        }
+        let slots = 1u128 << s;
+        let mut ps = vec![0, 1, slots - 2, slots - 1];
+        ps.sort_unstable();
+        ps.dedup();
+        for p in ps {
+            let bits: String = (0..s).rev().map(|i| if p >> i & 1 == 1 { '1' } else { '0' }).collect();
+            if let Some(n) = b.sub(&bits) {
+                if !singles.contains(&n) {
+                    singles.push(n);
+                }
+            }
+        }
+    }
+    let mut out: Vec<Vec<Net>> = singles.iter().map(|n| vec![b.net(*n)]).collect();
+    let runs: [&[&str]; 12] = [
+        &["01", "1"],                 // [1/4, 1): reaches the end, start missing
+        &["0", "10", "110"],          // [0, 7/8): adjacent run, end missing
+        &["0", "10", "110", "111"],   // tiles the whole block
+        &["0", "1"],                  // tiles the whole block
+        &["0", "11"],                 // gap in the middle
+        &["1", "111"],                // nested, at the end
+        &["10", "110", "111"],        // [1/2, 1) as an adjacent run
+        &["00", "01", "10"],          // [0, 3/4)
+        &["001", "01", "1"],          // [1/8, 1)
+        &["0000", "1111"],            // both edges only
+        &["1110", "1111"],            // [7/8, 1) from two halves
+        &["01", "10"],                // the middle half
+    ];
+    for r in runs {
+        let nets: Option<Vec<Net>> = r.iter().map(|bits| b.sub(bits).map(|n| b.net(n))).collect();
+        if let Some(n) = nets {
+            out.push(n);
+        }
+    }
+    if !b.v6 {
+        // the same subnet written in IPv4-mapped form
+        for bits in ["1111", "0000", "11111111", "1"] {
+            if let Some((v, l)) = b.sub(bits) {
+                let mapped = Ipv4Addr::from((v as u32).to_be_bytes()).to_ipv6_mapped();
+                out.push(vec![(IpAddr::V6(mapped), 96 + l)]);
+            }
+        }
+    }
+    if thorough {
+        for i in 0..singles.len() {
+            for j in i + 1..singles.len() {
+                out.push(vec![b.net(singles[i]), b.net(singles[j])]);
+            }
+        }
+    }
+    out
+}
+
+/// Client addresses for one (block, list): first/last/middle of the block and its outer
+/// neighbours, and for every subnet its first/last address and the addresses just before
+/// and after it; IPv4 ones also in IPv4-mapped form; plus one address of the other family.
+pub(crate) fn boundary_addresses(b: &Block, list: &[Net]) -> Vec<IpAddr> {
+    let mut vals: Vec<u128> = Vec::new();
+    let mut add_range = |first: u128, last: u128, vals: &mut Vec<u128>| {
+        vals.push(first);
+        vals.push(last);
+        if first > 0 {
+            vals.push(first - 1);
+        }
+        if last < b.max() {
+            vals.push(last + 1);
+        }
+    };
+    let (bf, bl) = b.range((b.val, b.len));
+    add_range(bf, bl, &mut vals);
+    let mid = bf + (bl - bf) / 2;
+    vals.push(mid);
+    vals.push(mid + 1);
+    for n in list {
+        let (a, m) = canon_net(*n);
+        let v = match a {
+            IpAddr::V4(x) => u32::from_be_bytes(x.octets()) as u128,
+            IpAddr::V6(x) => u128::from_be_bytes(x.octets()),
+        };
+        let (f, l) = b.range((v, m));
+        add_range(f, l, &mut vals);
+    }
+    vals.sort_unstable();
+    vals.dedup();
+    let mut out: Vec<IpAddr> = Vec::new();
+    for v in vals {
+        let ip = b.ip(v);
+        out.push(ip);
+        if let IpAddr::V4(x) = ip {
+            out.push(IpAddr::V6(x.to_ipv6_mapped()));
+        }
+    }
+    out.push(if b.v6 { "192.0.2.1".parse().unwrap() } else { "2001:db8::1".parse().unwrap() });
+    out
+}
+
+fn list_name(l: &[Net]) -> &'static str {
+    leak(format!("@{}", l.iter().map(|(a, m)| format!("{a}/{m}")).collect::<Vec<_>>().join("+")))
+}
+
+/// Policies of the boundary sweep for one list: as allow list (nothing denied), as deny
+/// list (everything allowed), and as both, each with both actions.
+pub(crate) fn boundary_policies(l: &[Net]) -> Vec<Policy> {
+    let all: Vec<Net> = vec![net("0.0.0.0/0"), net("::/0")];
+    let name = list_name(l);
+    let mut out = Vec::new();
+    for act in [Act::Ignore, Act::Deny] {
+        let base = Policy {
+            deny_name: "empty",
+            deny: vec![],
+            deny_act: act,
+            allow_name: "all",
+            allow: all.clone(),
+            allow_act: act,
+            require_nts: None,
+            versions: 7,
+            cache_size: 0,
+            cutoff: Duration::ZERO,
+        };
+        out.push(Policy { allow_name: name, allow: l.to_vec(), ..base.clone() });
+        out.push(Policy { deny_name: name, deny: l.to_vec(), ..base.clone() });
+        out.push(Policy {
+            deny_name: name,
+            deny: l.to_vec(),
+            allow_name: name,
+            allow: l.to_vec(),
+            allow_act: if act == Act::Ignore { Act::Deny } else { Act::Ignore },
+            ..base.clone()
+        });
+    }
+    out
+}
+
+pub(crate) const BOUNDARY_DGRAMS: [&str; 5] = ["v4.plain.m3", "v3.plain.m3", "v5.plain.m3", "v4.nts.ok.m3", "v4.nts.badtag.m3"];
+
+fn sweep_boundary(ctx: &Ctx, keys: &Keys, alpha: &[Dgram], thorough: bool) {
+    let dgs: Vec<&Dgram> = BOUNDARY_DGRAMS.iter().map(|n| alpha.iter().find(|d| d.name == *n).expect("datagram")).collect();
+    let mut work: Vec<(Block, Vec<Net>)> = Vec::new();
+    for b in blocks(thorough) {
+        for l in boundary_lists(&b, thorough) {
+            work.push((b, l));
+        }
+    }
+    ctx.set("bnd.blocks", blocks(thorough).len() as u64);
+    ctx.set("bnd.lists", work.len() as u64);
+    common::par_for(work.len() as u64, 4, |wi| {
+        let (b, l) = &work[wi as usize];
+        let addrs = boundary_addresses(b, l);
+        let mut tally: BTreeMap<String, u64> = BTreeMap::new();
+        let mut hashes = Vec::new();
+        let mut n = 0u64;
+        let mut inside = 0u64;
+        let mut buf = vec![0u8; 1024];
+        for (pi, p) in boundary_policies(l).iter().enumerate() {
+            let (mut server, _clock) = p.server(keys);
+            for (ai, addr) in addrs.iter().enumerate() {
+                if pi == 0 && listed(l, *addr) {
+                    inside += 1;
+                }
+                for (di, d) in dgs.iter().enumerate() {
+                    let out = run_handle(&mut server, *addr, &d.bytes, &mut buf);
+                    judge(ctx, p, *addr, d, &out, &mut tally);
+                    n += 1;
+                    hashes.push(common::hash_of(&("bnd", wi, pi, ai, di)));
+                }
+            }
+        }
+        ctx.distinct_many(hashes);
+        ctx.add("evaluations", n);
+        ctx.add("transitions", n);
+        ctx.add("bnd.handles", n);
+        ctx.add("bnd.addresses_inside_list", inside);
+        ctx.add("bnd.addresses_outside_list", addrs.len() as u64 - inside);
+        ctx.add("states", 6);
+        for (k, v) in tally {
+            ctx.add(&format!("bnd.{k}"), v);
+        }
+        if wi % 53 == 1 {
+            ctx.sample(format!("boundary list {} : {} client addresses, {} inside", list_name(l), addrs.len(), inside));
+        }
+    });
 }
 
 // ---------------------------------------------------------------------------------
@@ -1061,7 +1375,12 @@ fn check() {
          with UID/unknown field/MAC; NTS with valid cookie in every mode; NTS with bad tag in every mode, wrong-key / \
          unknown-id / missing cookie, tampered associated data; NTPv5 of another draft or without draft id; truncated, \
          garbage, unknown versions, broken field lengths, broken v5 header). quick = base factor sets, thorough = \
-         extended address and list sets. Distinct & non-trivial = a (policy, address, datagram) triple whose datagram \
+         extended address and list sets. Second sweep (boundary-valued subnets): for each nibble-aligned block (IPv4 /12 /20 /28, \
+         IPv6 /52 /124, incl. one ending at the end of the address space; thorough more) every list made of one subnet whose bits \
+         after the block prefix are all-zeros / all-ones / adjacent to those for 1..8 (thorough 12) extra bits, 12 runs of adjacent \
+         subnets that do / do not reach the block end, tile it or leave a gap, IPv4-mapped spellings (thorough: every pair of \
+         singles), used as allow list, as deny list and as both, x both actions x client addresses just inside / just outside every \
+         subnet and the block (first, last, middle, neighbours; IPv4 also IPv4-mapped) x 5 requests. Distinct & non-trivial = a (policy, address, datagram) triple whose datagram \
          is a well-formed client-mode request (so the policy, not the parser, decides).",
     );
     ctx.assume("IPv4-mapped IPv6 client addresses are matched as IPv4; a subnet only contains addresses of its own family (same reading as C31)");
@@ -1106,6 +1425,7 @@ fn check() {
             ctx.add(&k, n);
         }
     });
+    sweep_boundary(&ctx, &keys, &alpha, thorough);
     ctx.exhaustive(true);
     ctx.finish();
 }
